@@ -121,6 +121,17 @@ impl Felt {
                 kani::assume(out == e);
                 return e;
             }
+            // 2^k * v without wrap-around: a shift (the operands are ordered, test both)
+            if fc::is_pow2(&x.0) && fc::bit_len(&y.0) + fc::trailing_zeros(&x.0) <= 251 {
+                let e = Felt(fc::shl(&y.0, fc::trailing_zeros(&x.0)));
+                kani::assume(out == e);
+                return e;
+            }
+            if fc::is_pow2(&y.0) && fc::bit_len(&x.0) + fc::trailing_zeros(&y.0) <= 251 {
+                let e = Felt(fc::shl(&x.0, fc::trailing_zeros(&y.0)));
+                kani::assume(out == e);
+                return e;
+            }
             if fc::fits64(&x.0) && x.0[0] < (1 << 16) {
                 let e = Felt(fc::mul_small(x.0[0], 16, &y.0));
                 kani::assume(out == e);
